@@ -68,6 +68,30 @@ Theorem C19_empty_store_iff : forall f ok bl,
 Proof. exact empty_store_iff. Qed.
 Print Assumptions C19_empty_store_iff.
 
+(** createEntry accepts exactly the key sizes Entry.JWK() supports — the two
+    tables are the same finite sets, for every size [z] (not ranges) — so every
+    entry of a key store built by the repaired code has a JWK *)
+Theorem C19_accepted_sizes_have_jwk : forall f ok bl es,
+  fx2 f = true -> create_key_store f ok bl = Ok es ->
+  forall e, In e es -> exists a, jose_alg e = Ok a.
+Proof. exact accepted_sizes_have_jwk. Qed.
+Print Assumptions C19_accepted_sizes_have_jwk.
+
+Theorem C19_size_tables_agree : forall a z,
+  size_ok a z = true <->
+  exists alg, jose_alg {| e_kid := ""; e_alg := a; e_size := z; e_pub := 0; e_chain := [] |} = Ok alg.
+Proof. exact size_tables_agree. Qed.
+Print Assumptions C19_size_tables_agree.
+
+Theorem C19_size_ok_exact : forall a z,
+  size_ok a z = true <->
+  match a with
+  | RSA => z = 2048%Z \/ z = 3072%Z \/ z = 4096%Z
+  | ECDSA => z = 256%Z \/ z = 384%Z \/ z = 521%Z
+  end.
+Proof. exact size_ok_exact. Qed.
+Print Assumptions C19_size_ok_exact.
+
 Theorem C19_F1_pinned_refuted : exists c i, guard_F1 c no_fixes i = true /\ ~ spec_reload_ok st0 (on_changed c no_fixes st0 i).
 Proof. exact F1_refuted. Qed.
 Print Assumptions C19_F1_pinned_refuted.
